@@ -365,12 +365,6 @@ func (c cmp) str(path string, depth int, h, s string) {
 		}
 		return
 	}
-	if lim == 0 && len(s) == 1 && h == s {
-		// s is a single byte that is not valid UTF-8 (a valid one would have
-		// been cut to "").
-		c.bad("length_limit_zero_keeps_invalid_byte", "%s: length limit 0, offered the 1-byte invalid string %q, holds %q (1 character when ranged over; every other non-empty string is cut to \"\")", path, s, h)
-		return
-	}
 	n := utf8.RuneCountInString(h)
 	switch {
 	case n > lim:
